@@ -358,14 +358,14 @@ class Subs:
                     for cond in g.ifs:
                         nxt = []
                         for ee in envs:
-                            nxt.extend(self.assume(cond, True, ee.copy()))
+                            t_ = self.assume(cond, True, ee.copy())
+                            f_ = self.assume(cond, False, ee.copy())
+                            if t_ and f_:
+                                many[0] = True      # the element may or may not be part of the result
+                            nxt.extend(t_)
                         envs = nxt
-                        many[0] = many[0] or bool(g.ifs)
                     for ee in envs:
                         rec(gi + 1, ee)
-                        # propagate store refinements of the last env back (approximation)
-                    if envs and not g.ifs:
-                        pass
             else:
                 if kind == 'list':
                     el = None
